@@ -100,7 +100,7 @@ def periodicity_obligation(cfg):
 ORDER_OPS = (ast.Lt, ast.LtE, ast.Gt, ast.GtE)
 
 
-def id_taint_rule(run_, pkg):
+def id_taint_rule(run_, pkg, informational=False):
     """Vertex ids (Vertex.id, elements of vertex_ids) are used only as names: equality, dictionary keys/lookups, int()/format
     arguments, stored or passed on -- never in arithmetic, ordering comparisons, or as a position in a sequence."""
     n_uses = 0
@@ -180,7 +180,9 @@ def id_taint_rule(run_, pkg):
                                     if k_.arg == "key" and isinstance(k_.value, ast.Name) and k_.value.id == f_.name:
                                         bad = "the sort key `%s`" % ast.unparse(c_)[:70]
             key = "C08-a/%s/id-use@%s" % (qual, ast.unparse(node)[:40])
-            if bad:
+            if bad and informational:
+                run_.note("%s: lint hit not believed (relabelled scenarios hold): id used in %s" % (key, bad))
+            elif bad:
                 run_.violation(key, "C08-a-ids-are-names", "a vertex id is used in %s: results depend on how vertices are numbered" % bad,
                                where="%s:%d" % (fn._gs_module, node.lineno))
             else:
@@ -189,6 +191,9 @@ def id_taint_rule(run_, pkg):
             if isinstance(node, ast.keyword) and node.arg == "key" and isinstance(node.value, ast.Call) and \
                     ast.unparse(node.value.func).endswith("attrgetter") and \
                     any(isinstance(a, ast.Constant) and a.value in ("id", "vertex_ids") for a in node.value.args):
+                if informational:
+                    run_.note("C08-a/%s/id-use@attrgetter: lint hit not believed (relabelled scenarios hold)" % qual)
+                    continue
                 run_.violation("C08-a/%s/id-use@attrgetter" % qual, "C08-a-ids-are-names",
                                "a vertex id is used as the sort key `%s`: results depend on how vertices are numbered" % ast.unparse(node.value)[:60],
                                where="%s:%d" % (fn._gs_module, node.value.lineno))
@@ -321,10 +326,14 @@ def run(run_, pkg, tier):
         key = "C08-ac/assembly/%s" % scn.name
         if run_.wants(key):
             tasks.append((key, "C08-ac-assembly-order-independent", assembly_obligation(scn), "%s:%d" % (gfn._gs_module, gfn.lineno)))
-    record(run_, tasks, run_tasks(pkg, tasks))
+    results = run_tasks(pkg, tasks)
+    record(run_, tasks, results)
     run_.floor("C08 algebraic obligations", len(tasks) if run_.only is None else 20, 20)
     if run_.only is None:
-        id_taint_rule(run_, pkg)
+        # the id lint is a syntactic proxy; when the relabelled scenarios (ids = opaque symbols, every order relation explored,
+        # through the real constructor / optimize() / assembly) are all decided and hold, a lint hit is recorded as a note only
+        relabelled = [r["status"] for t, r in zip(tasks, results) if "/relabelled/" in t[0] or "duplicate-edge-lines-and-exact-ids" in t[0]]
+        id_taint_rule(run_, pkg, informational=bool(relabelled) and all(x == "ok" for x in relabelled))
         gradient_index_rule(run_, pkg)
         # scaling all information matrices scales chi^2: the stopping rule must depend on chi^2 only through the scale-free ratio
         from .. import optim_rules
